@@ -369,10 +369,10 @@ def gen_y(rng, xs, shape_tail):
     return kind, ys.reshape((n,) + tuple(shape_tail)) if shape_tail else ys[:, 0]
 
 
-def lag_observe(x, y, xnew, **kw):
+def lag_observe(x, y, xnew, xdtype="float64", ydtype="float64", **kw):
     from midgard.math import interpolation
     try:
-        r = interpolation.interpolate(np.array(x, dtype=float), np.array(y, dtype=float), np.array(xnew, dtype=float), kind="lagrange", **kw)
+        r = interpolation.interpolate(np.array(x, dtype=float).astype(xdtype), np.array(y, dtype=float).astype(ydtype), np.array(xnew, dtype=float), kind="lagrange", **kw)
     except ValueError as e:
         return None, f"ValueError: {e}"
     return np.asarray(r, dtype=float), None
@@ -536,6 +536,96 @@ def law_cases(ctx, rows_cs, lin_cs, mism, nsets):
         ctx.case(("law", kind, tuple(xs), y.tobytes(), z.tobytes()), nontrivial=True)
 
 
+# ----------------------------------------------------------------------------- storage type of the samples
+DTYPES = ["int64", "int32", "float32"]
+
+
+def dtype_cases(ctx, lag_cs, rows_cs, lin_cs, mism, nsets):
+    """The same integer-valued samples stored as int64 / int32 / float32 arrays (x as float64 or as integers):
+    values exactly representable in every type, so the exact model and the float64 run are the reference.
+    All five interpolators, 1-d and 2-d y, evaluated away from the nodes: Lagrange against the exact model,
+    every interpolator against its own float64 run, n-d = column-wise and linearity on the typed data.
+    (Python lists are rejected by every interpolator with AttributeError - `.ndim` - and are outside the domain.)"""
+    from midgard.math import interpolation
+    rng = ctx.rng
+
+    def call(kind, x, y, xn, **kw):
+        return np.asarray(interpolation.interpolate(x, y, xn, kind=kind, **kw))
+
+    for it in range(nsets):
+        n = rng.randrange(5, 16)
+        xs = [rng.randrange(-20, 20)]
+        for _ in range(n - 1):
+            xs.append(xs[-1] + rng.randrange(1, 6))
+        yd = DTYPES[it % 3]
+        xd = rng.choice(["float64", "float64", "int64", "int32"])
+        x_arr = np.array(xs, dtype=xd)
+        x_f = np.array(xs, dtype=float)
+        Y = np.array([[rng.randrange(-1000, 1001) for _ in range(3)] for _ in range(n)])
+        Z = np.array([[rng.randrange(-1000, 1001) for _ in range(3)] for _ in range(n)])
+        a, b = rng.choice([2, -3, 5]), rng.choice([3, -1, 4])
+        Yt, Zt = Y.astype(yd), Z.astype(yd)
+        scale = float(1000 * (abs(a) + abs(b)))
+        xs_all, Y_all, Z_all = xs, Y, Z
+        for kind in ["lagrange"] + SCIPY_KINDS:
+            m = min(n, 8) if kind == "barycentric_interpolator" else n       # one polynomial through all nodes: keep it well conditioned
+            xs, Y, Z = xs_all[:m], Y_all[:m], Z_all[:m]
+            x_arr, x_f, Yt, Zt = np.array(xs, dtype=xd), np.array(xs, dtype=float), Y.astype(yd), Z.astype(yd)
+            # away from the nodes: odd multiples of 1/16 between the first and the last node
+            xn = np.array(sorted(xs[0] + (2 * rng.randrange(0, 8 * (xs[-1] - xs[0])) + 1) / 16.0 for _ in range(4)))
+            w = rng.randrange(3, min(6, m) + 1)
+            kw = dict(window=w) if kind == "lagrange" else {}
+            base = dict(kind_of_interpolator=kind, x=[repr(float(v)) for v in xs], x_dtype=xd, y_dtype=yd, y=Y.tolist(), z=Z.tolist(), a=a, b=b,
+                        x_new=[repr(float(v)) for v in xn], options=kw)
+            how = f"interpolate(np.array(x, dtype={xd!r}), np.array(y, dtype={yd!r})[...], np.array(x_new), kind={kind!r}, **options)"
+            try:
+                ref2 = call(kind, x_f, Y.astype(float), xn, **kw)            # float64 run of the same data
+                got2 = call(kind, x_arr, Yt, xn, **kw)                      # typed, 2-d
+                got1 = [call(kind, x_arr, Yt[:, c], xn, **kw) for c in range(3)]      # typed, 1-d columns
+                gz2 = call(kind, x_arr, Zt, xn, **kw)
+                gyz2 = call(kind, x_arr, a * Yt + b * Zt, xn, **kw)
+            except Exception as e:
+                mism.append(dict(base, kind="law_dtype", observed=f"{type(e).__name__}: {e}", how=how))
+                continue
+            for c in range(3):
+                rows_cs.add(emit.pair(emit.q(LAW_REL), emit.dy(scale), dys(ref2[:, c]), dys(got2[:, c])),
+                            dict(base, kind="law_dtype", column=c, observed=np.asarray(got2[:, c], dtype=float).tolist(),
+                                 expected_float64_run=ref2[:, c].tolist(), how=how + " must equal the float64 run of the same samples (2-d y)"))
+                rows_cs.add(emit.pair(emit.q(LAW_REL), emit.dy(scale), dys(ref2[:, c]), dys(got1[c])),
+                            dict(base, kind="law_dtype", column=c, observed=np.asarray(got1[c], dtype=float).tolist(),
+                                 expected_float64_run=ref2[:, c].tolist(), how=how + "  with y[:, c]: must equal the float64 run of the same samples (1-d y)"))
+                rows_cs.add(emit.pair(emit.q(LAW_REL), emit.dy(scale), dys(got1[c]), dys(got2[:, c])),
+                            dict(base, kind="law_ndim", column=c, observed=np.asarray(got2[:, c], dtype=float).tolist(),
+                                 how=how + ": column c of the 2-d result must equal the 1-d result of column c"))
+                lin_cs.add(emit.pair(emit.q(LAW_REL), emit.dy(scale), emit.pair(emit.dy(a), emit.dy(b)), emit.pair(dys(got2[:, c]), dys(gz2[:, c]), dys(gyz2[:, c]))),
+                           dict(base, kind="law_linear", column=c, observed=dict(fy=np.asarray(got2[:, c], dtype=float).tolist(), fz=np.asarray(gz2[:, c], dtype=float).tolist(),
+                                                                                   f_combination=np.asarray(gyz2[:, c], dtype=float).tolist()),
+                                how=how + ": f(a*y + b*z) must equal a*f(y) + b*f(z)"))
+            if kind == "lagrange":
+                yrows = Y.astype(float)
+                for k, t in enumerate(xn[:3]):
+                    for ncols, res, yr in ((3, got2[k], yrows), (1, np.array([got1[1][k]]), yrows[:, 1:2])):
+                        rep = dict(kind="lagrange", x=[repr(float(v)) for v in xs], y=yr.tolist() if ncols > 1 else yr[:, 0].tolist(), y_ndim=2 if ncols > 1 else 1,
+                                   x_dtype=xd, y_dtype=yd, x_new=repr(float(t)), all_x_new=[repr(float(v)) for v in xn], options=kw, mode="dtype",
+                                   observed=np.asarray(res, dtype=float).tolist(),
+                                   how=f"interpolate(np.array(x, dtype={xd!r}), np.array(y, dtype={yd!r}), np.array(all_x_new), kind='lagrange', **options)[k]")
+                        lag_cs.add(lag_term(w, False, True, ncols, [float(v) for v in xs], yr, float(t), np.asarray(res, dtype=float).reshape(ncols)), rep)
+                        ctx.case(("lag-dtype", tuple(xs), w, yd, xd, float(t), ncols), nontrivial=True)
+            ctx.count(f"dtype:{kind}:y={yd}:x={xd}")
+            ctx.case(("dtype", kind, tuple(xs), yd, xd, Y.tobytes()), nontrivial=True,
+                     sample=dict(kind=kind, y_dtype=yd, x_dtype=xd, n=m) if it == 0 and kind == "lagrange" else None)
+        xs = xs_all
+    # lists: outside the domain on the unchanged tree (every interpolator reads `.ndim`); counted, no verdict
+    for kind in ["lagrange"] + SCIPY_KINDS:
+        try:
+            interpolation.interpolate([0, 1, 2, 4], [1, 4, 2, 8], [0.5], kind=kind, **(dict(window=3) if kind == "lagrange" else {}))
+            ctx.count(f"dtype:{kind}:python-lists-accepted")
+        except AttributeError:
+            ctx.count(f"dtype:{kind}:python-lists-rejected(AttributeError)")
+        except Exception as e:
+            ctx.count(f"dtype:{kind}:python-lists-rejected({type(e).__name__})")
+
+
 # ============================================================================= DOP
 def dop_observe(az, el):
     from midgard.gnss.compute_dops import compute_dops
@@ -627,6 +717,7 @@ EXPLAIN = {
     "law_nodes": {1: "interpolator does not reproduce the data at the nodes"},
     "law_ndim": {1: "n-d data is not interpolated column-wise"},
     "law_perm": {1: "result depends on the order of the samples"},
+    "law_dtype": {1: "result depends on the storage type of the samples: differs from the float64 run of the same (exactly representable) data"},
     "law_linear": {1: "interpolator is not linear in the data"},
     "dop": {1: "DOP values differ from the model (sqrt of traces of (H^T H)^-1)", 3: "model normal matrix singular / not evaluable", 4: "Pythagorean identity violated on the returned doubles",
             6: "DOPs change when all azimuths are rotated", 7: "DOPs change when the satellites are reordered"},
@@ -690,6 +781,7 @@ def run(ctx):
     if on("lag"):
         lagrange_cases(ctx, lag, mism, 110 if q else 1400)
         law_cases(ctx, rows, lin, mism, 100 if q else 1500)
+        dtype_cases(ctx, lag, rows, lin, mism, 18 if q else 240)
     dop = Cases("check_dop3", 4 if q else 10)
     if on("dop"):
         dop_cases(ctx, dop, mism, 60 if q else 700)
@@ -782,7 +874,7 @@ def replay(ctx, path):
         elif kind == "lagrange":
             xs = [float(v) for v in rep["x"]]
             xn = [float(v) for v in rep.get("all_x_new", [rep["x_new"]])]
-            res, err = lag_observe(xs, rep["y"], xn, **rep["options"])
+            res, err = lag_observe(xs, rep["y"], xn, xdtype=rep.get("x_dtype", "float64"), ydtype=rep.get("y_dtype", "float64"), **rep["options"])
             print("now:", err if res is None else res.tolist())
             yrows = np.asarray(rep["y"], dtype=float).reshape(len(xs), -1)
             o = rep["options"]
